@@ -908,3 +908,68 @@ func H_C17_searchFloat() {
 		vAssertK("searchFloat:indexOf==StrictEquality", res.ToInteger() == want, known, "F-C17-float-search-raw-compare")
 	}
 }
+
+// ---------------------------------------------------------------------
+// H17.2 subarray(begin, end): the new view requested from the (default) constructor lies inside the
+// receiver's VIEW. Symbolically typedArraySpeciesCreate is replaced by the default path without user
+// code: the real _newTypedArrayFromArrayBuffer on the receiver's buffer with the arguments goja computed.
+
+func vC17StubSpeciesCreate(r *Runtime, ta *typedArrayObject, args []Value) *typedArrayObject {
+	nt := &Object{runtime: r}
+	ntb := &baseObject{class: classObject, val: nt, extensible: true}
+	nt.self = ntb
+	ntb.init()
+	ab := args[0].(*Object).self.(*arrayBufferObject)
+	o := r._newTypedArrayFromArrayBuffer(ab, args, nt, vC17Ctor(r, vC17CurKind), nil)
+	return o.self.(*typedArrayObject)
+}
+
+func H_C17_subarray() {
+	w := vC17World("w", vC17KindsBySize)
+	vC17CurKind = w.kind
+	vC17EnsureCtors(w.r)
+	if !vSymbolic() {
+		w.ta = vC17NewTA(w.r, w.kind, w.buf, w.ta.offset, w.ta.length)
+	}
+	d := vC17NewDetacher(w, 2)
+	begin := vC17IntArg("begin", d.effect(0))
+	end := vC17IntArg("end", d.effect(1))
+	args := []Value{begin, end}
+	if vNondetBool("end.undefined") {
+		vAssume(d.which != 1)
+		args[1] = _undefined
+	}
+	var res Value
+	out := vCatch(func() { res = w.r.typedArrayProto_subarray(FunctionCall{This: w.ta.val, Arguments: args}) })
+	l := int64(w.ta.length)
+	rb := refRelIdx(begin.i, l)
+	re := l
+	if args[1] != _undefined {
+		re = refRelIdx(end.i, l)
+	}
+	nl := re - rb
+	if nl < 0 {
+		nl = 0
+	}
+	detached := w.buf.detached
+	// the constructor (InitializeTypedArrayFromArrayBuffer step 4) throws TypeError on a detached buffer
+	vAssert("subarray:throw-iff-detached", out.panicked == detached)
+	if out.panicked {
+		vAssert("subarray:TypeError", out.kind == "TypeError")
+		return
+	}
+	o, isObj := res.(*Object)
+	vAssert("subarray:returns-object", isObj)
+	if !isObj {
+		return
+	}
+	a, isTA := o.self.(*typedArrayObject)
+	vAssert("subarray:returns-typed-array", isTA)
+	if !isTA {
+		return
+	}
+	vAssert("subarray:same-buffer", a.viewedArrayBuf == w.buf)
+	vAssert("subarray:offset", int64(a.offset) == int64(w.ta.offset)+rb)
+	vAssert("subarray:length", int64(a.length) == nl)
+	vAssert("subarray:inside-the-view", a.offset >= w.ta.offset && a.offset+a.length <= w.ta.offset+w.ta.length)
+}
